@@ -2,7 +2,8 @@ use crate::data;
 use crate::operator::{AggregateFunction, Data, EvalError, Evaluate, Expr};
 
 pub struct Max {
-    max: f64,
+    /// the maximum of the other numeric values; None until one is seen (NaN is no candidate)
+    max: Option<f64>,
     /// the maximum of the integer values, kept exactly: not every i64 is a double
     max_int: Option<i64>,
     column: Expr,
@@ -11,7 +12,7 @@ pub struct Max {
 impl Max {
     pub fn empty<T: Into<Expr>>(column: T) -> Max {
         Max {
-            max: std::f64::NEG_INFINITY,
+            max: None,
             max_int: None,
             column: column.into(),
         }
@@ -36,8 +37,8 @@ impl AggregateFunction for Max {
                 }
             }
             None => {
-                if value > self.max {
-                    self.max = value;
+                if !value.is_nan() && self.max.map_or(true, |seen| value > seen) {
+                    self.max = Some(value);
                 }
             }
         }
@@ -45,12 +46,7 @@ impl AggregateFunction for Max {
     }
 
     fn emit(&self) -> data::Value {
-        // the initial value means that no float was seen; an infinite maximum that was seen is a value
-        let of_floats = if self.max != std::f64::NEG_INFINITY {
-            Some(data::Value::from_float(self.max))
-        } else {
-            None
-        };
+        let of_floats = self.max.map(data::Value::from_float);
         match (self.max_int.map(data::Value::Int), of_floats) {
             (Some(i), Some(f)) => i.max(f),
             (Some(v), None) | (None, Some(v)) => v,
